@@ -25,6 +25,10 @@ F64_SPECIALS = [0x7ff0000000000000, 0xfff0000000000000, 0x7ff8000000000001, 0x80
 class C11(AtomicProp):
     pid = "C11"
     obj = "gauge"
+    imports = IMPORTS + "\nRequire PV.Proofs.AtomicSpecFull PV.Proofs.AtomicSpecFloat."
+    # the domain of c11_spec_of_validated_int / c11_spec_of_validated_float
+    dom_def = ("Definition chk_dom (c : flavour * list event) : bool :=\n"
+               "  match fst c with FlFloat => PV.Proofs.AtomicSpecFloat.dom11_float (snd c) | FlInt => PV.Proofs.AtomicSpecFull.dom11_int (snd c) end.")
     spec_def = ("Definition chk_spec (c : flavour * list event) : bool :=\n"
                 "  spec_c11 (match fst c with FlFloat => true | FlInt => false end) (snd c).")
     rule = ("scenario = real Gauge (f64) or IntGauge (i64), 2-3 threads x 1-4 calls (<= 12) of set / inc / dec / add / sub / get with "
